@@ -221,6 +221,21 @@ CHECKS = {
              "powers, prange = range - listed in the evidence). Two genuine differences were found and repaired (autocorr_1d_int, mean_grp: "
              "int16 arithmetic wrapped in the interpreted source).",
         technique="compiled-vs-interpreted differential run over all 35 programs + Coq proofs (nia/lia) that integer accumulators fit int64"),
+    "C12": dict(
+        cat="proof",
+        text="Theorems (Props/C12.v, no axioms) about the modelled dispatch: for every chunking of the pixel list and every schedule that "
+             "evaluates each block (any order, repeats allowed) the assembled result is the plain per-pixel map, a skipped block gives no "
+             "result; permuting or re-indexing pixels permutes the results; in the small-step semantics of the unsynchronised lazycompile "
+             "cache every interleaving of any number of threads makes every call on a compiled object and the cache is never emptied. The "
+             "decisive part is the run under configurations: 24 accessor operations in-memory vs dask-backed under chunkings (1 pixel, "
+             "ragged, single) x schedulers (synchronous, threaded 1/4/16 workers) x dimension orders (time first / last / middle), values, "
+             "dims, coords and dtype; pixel permutation; chunked time (refuse or agree); two lazy results in one graph; the prange cube "
+             "smoother bit-identical for thread counts 1..16; N threads behind a barrier on the first call of lazily compiled kernels.",
+        ref="7 (C12)",
+        note="Partial: xarray / dask / numba glue is exercised, not modelled; interleavings inside numba's compiler and dask's scheduler "
+             "are sampled. One genuine defect found and repaired (autocorr on dask-backed float input with time not first raised a "
+             "TypingError). Trusted: Coq kernel; harness.",
+        technique="Coq proof of the modelled dispatch (induction over schedules / interleavings) + differential runs under configurations"),
     "C06": dict(
         cat="proof",
         text="Theorems (Props/C06.v, reals): from the variational characterisation of C01 (not from the elimination order) the Whittaker "
